@@ -1,4 +1,4 @@
 Require Extraction.
 Require Import ExtrOcamlBasic.
 From GR Require Import Base.Bytes Base.Mem Model.FeatModel Model.TagModel.
-Extraction "feat_model.ml" read_feats read_sill clone_for_lang set_val get_val find_fref zeropad.
+Extraction "feat_model.ml" read_feats read_sill clone_for_lang set_val get_val set_val_on get_val_on blank find_fref zeropad.
